@@ -32,9 +32,22 @@ def run(c):
     drv = c.driver(DRIVER)
     binary = c.go_build(HARNESS, name="verif-c19")
     if binary and drv:
-        rc, out = c.go_run(binary, ["-mode=c19", f"-n={c.n(600, 18000)}"], timeout=1500)
-        c.harness_ok(rc, out, "verif-c15 -mode=c19")
-        c.correspond(out, drv)
+        # corpus first: minimised histories of past findings / quirks, replayed through -mode=script
+        import glob, os
+        for f in sorted(glob.glob(os.path.join(os.path.dirname(os.path.abspath(__file__)), "..", "corpus", "C19", "*.ops"))):
+            rc, out = c.go_run(binary, ["-mode=script", "-arg=" + os.path.abspath(f)])
+            c.harness_ok(rc, out, "verif-c15 -mode=script " + os.path.basename(f))
+            c.correspond(out, drv, label="script:" + os.path.abspath(f))
+        # several harness processes in parallel (each a different seed derived from VERIF_SEED), one correspondence each
+        from concurrent.futures import ThreadPoolExecutor
+        chunks, per = c.n((4, 100), (8, 2000))
+        def one(k):
+            return c.go_run(binary, ["-mode=c19", f"-n={per}", f"-seed={c.seed * 1000 + k}"], timeout=1500)
+        with ThreadPoolExecutor(chunks) as ex:
+            outs = list(ex.map(one, range(chunks)))
+        for rc, out in outs:
+            c.harness_ok(rc, out, "verif-c15 -mode=c19")
+            c.correspond(out, drv)
 
     def search():
         if not binary:
@@ -48,8 +61,18 @@ def run(c):
 
 
 def replay(c):
-    import sys
+    import json, sys
     _use_c15_overlay(c)
+    rp = json.load(open(c.replay))
+    label = rp.get("label") or ""
+    if label.startswith("script:"):
+        binary = c.go_build(HARNESS, name="verif-c19"); drv = c.driver(DRIVER)
+        rc, out = c.go_run(binary, ["-mode=script", "-arg=" + label[len("script:"):]])
+        print("---- implementation (current tree)"); print(out)
+        cases, _, _ = vf.parse_stream(out)
+        feed = "\n".join(l for cs in cases for l in [cs.header] + cs.ops) + "\n"
+        print("---- model"); print(vf.sh([drv], stdin=feed)[1])
+        return 1 if "\n! " in "\n" + out else 0
     return vf.generic_replay(c, sys.modules[__name__])
 
 
@@ -62,7 +85,7 @@ META = {
              "deleted ids are never reused; with the flood limit in force every successful creation consumes one unit of a potential that is refilled by "
              "bonus per elapsed step and capped by maxBudget, hence #creations <= max(maxBudget, budget at start) + bonus*(elapsed steps) for every window "
              "under a non-decreasing clock, and a request with no budget left answers flood-limit and changes nothing."),
-    "note": ("Trusted: Lean kernel, SQLite, model<->code correspondence (quick 600, thorough 18000 histories). Observed and reported, not alarmed on: "
+    "note": ("Trusted: Lean kernel, SQLite, model<->code correspondence (quick 400, thorough 16000 histories). Observed and reported, not alarmed on: "
              "ResetFlood stores the unrounded time, so a reset to a value <= maxBudget is undone (budget back to maxBudget-1) by the next creation in the "
              "same step through the unsigned wrap of now-last; a clock moving backwards refills the budget the same way; ResetFlood's 'before' is read for "
              "the literal metric \"abc2\"."),
